@@ -2,6 +2,7 @@ import FxVerif.Proofs.C06
 import FxVerif.Proofs.C05Sorted
 import FxVerif.Proofs.C05Ext
 import FxVerif.Proofs.C05Orig
+import FxVerif.Proofs.C05Sol
 /-!
 # C05 — every outgoing transfer is in exactly one place and is settled exactly once
 
@@ -385,19 +386,20 @@ theorem batch_nonce_fresh (s0 : State) (h0 : IsInit s0) (ops : List Op) :
     (∀ t mf bf fr s' n, doReqBatch s t mf bf fr = (s', .ok n) → ∀ b ∈ x.created, b.nonce ≠ n) ∧
     (∀ a r to d m cs s' n, doBridgeCall s a r to d m cs = (s', .ok n) → ∀ c ∈ x.createdCalls, c.nonce ≠ n) := by
   have hn := N_run (N_init h0) ops
+  rw [runExt_eq]
   simp only
   refine ⟨runExt_fst _ _ _, hn.nonces, by rw [hn.nonces]; exact nodup_range', hn.sub, hn.cnonces,
     by rw [hn.cnonces]; exact nodup_range', hn.csub, ?_, ?_⟩
   · intro t mf bf fr s' n h b hb hbn
     have h1 := (reqBatch_ok h).1
-    have h2 : b.nonce ∈ range' 1 ((runExt s0 {} ops).1.nextBatchId - 1) := by
+    have h2 : b.nonce ∈ range' 1 ((runExtStd s0 {} ops).1.nextBatchId - 1) := by
       rw [← hn.nonces]; exact mem_map_of_mem hb
     simp only [mem_range'_1] at h2
     have := hn.npos
     omega
   · intro a r to d m cs s' n h c hc hcn
     obtain ⟨_, _, h1⟩ := queued_is_supplied_call _ _ a r to d m cs n h
-    have h2 : c.nonce ∈ range' 1 ((runExt s0 {} ops).1.nextCallId - 1) := by
+    have h2 : c.nonce ∈ range' 1 ((runExtStd s0 {} ops).1.nextCallId - 1) := by
       rw [← hn.cnonces]; exact mem_map_of_mem hc
     simp only [mem_range'_1] at h2
     have := hn.cpos
@@ -415,7 +417,7 @@ theorem observed_execution_settles (s0 : State) (h0 : IsInit s0) (ops : List Op)
       (doObserve (run s0 ops) h (.batch t n)).2 = .ok ((run s0 ops).eventNonce + 1) ∧
       ∀ tx ∈ b.txs, ∀ ops2 : List Op, ∀ e ∈ (run s0 (ops ++ [.observe h (.batch t n)] ++ ops2)).settled,
         e.isCall = false → e.id = tx.id → e.how = .executed := by
-  obtain ⟨ha1, ha2⟩ := admissibleRun_append ha
+  obtain ⟨ha1, ha2⟩ := admissibleRun_append ((admissibleRun_iff _ _ _).mp ha)
   have hj := J_run (J_init h0) ops ha1
   rw [runExt_fst] at hj
   obtain ⟨b, hb, hbt, hbn, hok, hlog⟩ := admissible_execution_applies_aux hj ha2.1
@@ -445,6 +447,7 @@ theorem queued_is_supplied_always (s0 : State) (h0 : IsInit s0) (ops : List Op) 
   have hq := QI_run (Q_init h0) (inv_init h0) ops
   have hn := N_run (N_init h0) ops
   rw [runExt_fst] at hq hn
+  rw [runExt_eq]
   simp only
   exact ⟨hq.queued, by rw [hq.sentIds]; exact nodup_range', hn.sub, hn.csub⟩
 
@@ -462,6 +465,7 @@ theorem refund_is_what_was_paid (s0 : State) (h0 : IsInit s0) (ops : List Op) :
   have hq := QI_run (Q_init h0) (inv_init h0) ops
   have hr := RN_run (R_init h0) (N_init h0) ops
   rw [runExt_fst] at hq hr
+  rw [runExt_eq]
   simp only
   refine ⟨hq.refunds, fun e he hc hh => ?_⟩
   obtain ⟨c, hcm, h1, h2⟩ := hr.calls e he hc
